@@ -60,6 +60,9 @@ func (g *progGen) id(kind string, line int) int {
 
 func (g *progGen) v() string { g.nvar++; return fmt.Sprintf("v%d", g.nvar) }
 
+// forceKind (env C09_ONLY, debugging): generate this statement kind half of the time.
+var forceKind = -1
+
 func ind(n int) string { return strings.Repeat("\t", n) }
 
 // noise: blank lines and comments between statements
@@ -87,8 +90,11 @@ func (g *progGen) stmt(d, depth int) {
 	f := g.cur
 	t := ind(d)
 	L := f.next()
-	k := g.r.Intn(34)
-	if depth <= 0 && k >= 12 && k <= 22 {
+	k := g.r.Intn(52)
+	if forceKind >= 0 && g.r.Bool() {
+		k = forceKind
+	}
+	if depth <= 0 && (k >= 12 && k <= 22 || k == 31 || k == 33 || k == 34 || k >= 36 && k <= 39 || k == 41 || k == 46 || k == 47) {
 		k = g.r.Intn(12)
 	}
 	switch k {
@@ -271,14 +277,152 @@ func (g *progGen) stmt(d, depth int) {
 		v := g.v()
 		f.w("%s%s, err := must(mark(%d))", t, v, g.id("define2", L))
 		f.w("%s_, _ = %s, err", t, v)
-	default:
+	case 33:
 		f.w("%sif x := mark(%d); x > 0 {", t, g.id("ifinit", L))
 		g.block(d+1, depth-1, 1)
 		f.w("%s}", t)
+	// ---- probes in every expression position written on the statement's first line -------------
+	case 34: // for-in with a filter condition (the condition becomes a generated `if`)
+		switch g.r.Intn(4) {
+		case 3:
+			f.w("%sfor x in [1, 2] if mark(%d) > x {", t, g.id("forin_if_filter", L))
+		case 0:
+			f.w("%sfor x <- [1, 2], mark(%d) > x {", t, g.id("forin_filter", L))
+		case 1:
+			a := g.id("forin_filter_src", L)
+			f.w("%sfor x <- mk(mark(%d)), mark(%d) > x-%d {", t, a, g.id("forin_filter_2nd", L), a)
+		default:
+			f.w("%sfor i, x <- [1, 2], mark(%d) > x+i {", t, g.id("forin_kv_filter", L))
+		}
+		f.w("%s\t_ = x", t)
+		g.block(d+1, depth-1, 1+g.r.Intn(2))
+		f.w("%s}", t)
+	case 35: // comprehension element + condition; map comprehension
+		switch g.r.Intn(4) {
+		case 3:
+			f.w("%s_ = [mark(%d) + x for x in [1, 2] if y := mark(%d); y > x]", t, g.id("listcomp_in_elem", L), g.id("listcomp_in_cond_init", L))
+		case 0:
+			f.w("%s_ = [mark(%d) + x for x <- [1, 2], mark(%d) > 0]", t, g.id("listcomp_elem", L), g.id("listcomp_cond", L))
+		case 1:
+			f.w("%s_ = {x: mark(%d) for x <- [1, 2], mark(%d) > x}", t, g.id("mapcomp_elem", L), g.id("mapcomp_cond", L))
+		default:
+			f.w("%s_ = [mark(%d) + x + y for x <- [1, 2] for y <- mk(mark(%d))]", t, g.id("listcomp2_elem", L), g.id("listcomp2_src", L))
+		}
+	case 36: // if with init and a call in the condition
+		f.w("%sif x := mark(%d); mark(%d)+x > 0 {", t, g.id("ifinit", L), g.id("ifinit_cond", L))
+		g.block(d+1, depth-1, 1)
+		f.w("%s}", t)
+	case 37: // switch with init and tag
+		a := g.id("switchinit", L)
+		b := g.id("switchinit_tag", L)
+		f.w("%sswitch x := mark(%d); mark(%d) + x {", t, a, b)
+		L2 := f.next()
+		f.w("%scase mark(%d), mark(%d):", t, g.id("case", L2), g.id("case_2nd", L2))
+		g.block(d+1, depth-1, 1)
+		f.w("%scase %d:", t, a+b)
+		g.block(d+1, depth-1, 1)
+		f.w("%s}", t)
+	case 38: // three-clause for with calls in init, condition and post
+		a := g.id("for3", L)
+		b := g.id("for3_cond", L)
+		c := g.id("for3_post", L)
+		v := g.v()
+		f.w("%sfor %s := mark(%d); %s < mark(%d)-(%d); %s += mark(%d) - %d {", t, v, a, v, b, b-a-2, v, c, c-1)
+		g.block(d+1, depth-1, 1)
+		f.w("%s}", t)
+	case 39: // select: send value, receive operand
+		f.w("%sselect {", t)
+		L2 := f.next()
+		f.w("%scase ch <- mark(%d) + mark(%d):", t, g.id("selectcase", L2), g.id("selectcase_2nd", L2))
+		g.block(d+1, depth-1, 1)
+		L3 := f.next()
+		f.w("%scase v := <-chv(mark(%d)):", t, g.id("selectrecv", L3))
+		f.w("%s\t_ = v", t)
+		f.w("%sdefault:", t)
+		f.w("%s}", t)
+	case 40: // defer / go with several argument calls
+		if g.r.Bool() {
+			f.w("%sdefer use(mark(%d), mark(%d))", t, g.id("defer", L), g.id("defer_2nd", L))
+		} else {
+			f.w("%sgo use(mark(%d), mark(%d))", t, g.id("go", L), g.id("go_2nd", L))
+		}
+	case 41: // lambda bodies
+		switch g.r.Intn(3) {
+		case 0:
+			f.w("%s_ = apply(x => mark(%d) + mark(%d) + x)", t, g.id("lambda", L), g.id("lambda_2nd", L))
+		case 1:
+			f.w("%s_ = apply(x => {", t)
+			L2 := f.next()
+			f.w("%s\treturn mark(%d) + x", t, g.id("lambda_block_return", L2))
+			f.w("%s})", t)
+		default:
+			f.w("%srun(() => {", t)
+			g.block(d+1, depth-1, 1)
+			f.w("%s})", t)
+		}
+	case 42: // composite literal elements on one line
+		switch g.r.Intn(3) {
+		case 0:
+			f.w("%s_ = []int{mark(%d), mark(%d)}", t, g.id("slicelit", L), g.id("slicelit_2nd", L))
+		case 1:
+			f.w("%s_ = {\"a\": mark(%d), \"b\": mark(%d)}", t, g.id("maplit", L), g.id("maplit_2nd", L))
+		default:
+			f.w("%s_ = [mark(%d), mark(%d)]", t, g.id("xgoslicelit", L), g.id("xgoslicelit_2nd", L))
+		}
+	case 43: // return of several values
+		v := g.v()
+		f.w("%s%s := func() (int, int) {", t, v)
+		L2 := f.next()
+		f.w("%s\treturn mark(%d), mark(%d)", t, g.id("return", L2), g.id("return_2nd", L2))
+		f.w("%s}", t)
+		f.w("%s_, _ = %s()", t, v)
+	case 44: // string interpolation, command call with several arguments
+		if g.r.Bool() {
+			f.w("%secho \"${mark(%d)} and ${mark(%d)}\"", t, g.id("interp", L), g.id("interp_2nd", L))
+		} else {
+			f.w("%sprintln mark(%d), mark(%d)", t, g.id("command", L), g.id("command_2nd", L))
+		}
+	case 45: // assignment forms with calls on both sides
+		switch g.r.Intn(3) {
+		case 0:
+			f.w("%sarr[mark(%d)%%2] += mark(%d)", t, g.id("assignop_index", L), g.id("assignop_index_2nd", L))
+		case 1:
+			f.w("%sarr[mark(%d)%%2], tot = mark(%d), 3", t, g.id("assign_tuple", L), g.id("assign_tuple_2nd", L))
+		default:
+			f.w("%sch <- mark(%d) + mark(%d)", t, g.id("send", L), g.id("send_2nd", L))
+		}
+	case 46: // range with calls in key position target and operand; range over integer
+		f.w("%sfor k := range mk(mark(%d)) {", t, g.id("range_key", L))
+		f.w("%s\t_ = k", t)
+		g.block(d+1, depth-1, 1)
+		f.w("%s}", t)
+	case 47: // type switch with init
+		v := g.v()
+		f.w("%sswitch y := mark(%d); %s := any(mark(%d) + y).(type) {", t, g.id("typeswitch_init", L), v, g.id("typeswitch_init_2nd", L))
+		f.w("%scase int:\n%s\t_ = %s", t, t, v)
+		g.block(d+1, depth-1, 1)
+		f.w("%sdefault:\n%s\t_ = %s", t, t, v)
+		f.w("%s}", t)
+	case 48: // nested calls and method calls
+		f.w("%s_ = use(use(mark(%d), 1), (&T0{}).id(mark(%d)))", t, g.id("nested_call", L), g.id("nested_call_2nd", L))
+	case 49: // conditional expression pieces: && / || (short circuit)
+		f.w("%s_ = mark(%d) > 0 && mark(%d) > 0 || mark(%d) > 0", t, g.id("andor", L), g.id("andor_2nd", L), g.id("andor_3rd", L))
+	case 50: // error-wrap forms
+		switch g.r.Intn(2) {
+		case 0:
+			f.w("%s_ = must(mark(%d))?:mark(%d)", t, g.id("errwrap_default", L), g.id("errwrap_default_2nd", L))
+		default:
+			f.w("%s_ = use(must(mark(%d))!, must(mark(%d))!)", t, g.id("errwrap", L), g.id("errwrap_2nd", L))
+		}
+	default: // index / slice expressions
+		f.w("%s_ = mk(mark(%d))[mark(%d)-%d:]", t, g.id("slice_expr", L), g.id("slice_expr_2nd", L), g.nid)
 	}
 }
 
-const prelude = `import "runtime"
+const prelude = `import (
+	"runtime"
+	"strings"
+)
 
 func mark(id int) int {
 	pc, file, line, _ := runtime.Caller(1)
@@ -306,6 +450,33 @@ func run(f func()) {
 
 func must(a int) (int, error) {
 	return a, nil
+}
+
+func chv(a int) chan int {
+	c := make(chan int, 1)
+	c <- a
+	return c
+}
+
+type T0 struct {
+	z int
+}
+
+type E2 struct {
+	e2 int
+}
+
+// embedded fields of every form, a tag
+type E1 struct {
+	T0
+	*E2
+	strings.Builder
+	*strings.Reader
+	tagged int `+"`"+`json:"t"`+"`"+`
+}
+
+func (p *T0) id(a int) int {
+	return a
 }
 
 var (
@@ -388,7 +559,11 @@ func genProgram(r *vh.Rand, idx int) *progGen {
 		if r.Bool() {
 			cf.w("// class file of %s\n", cls)
 		}
-		cf.w("var (\n\tw, h int\n)\n")
+		if r.Bool() {
+			cf.w("var (\n\tT0\n\t*E2\n\tw, h int\n)\n") // class file with embedded fields
+		} else {
+			cf.w("var (\n\tw, h int\n)\n")
+		}
 		for i := 0; i < 1+r.Intn(2); i++ {
 			name := fmt.Sprintf("area%d", i)
 			doc := 0
